@@ -116,6 +116,7 @@ def run_rule(ctx, repo):
                   "it was computed for" % (src(f.g.data(double[0][1])["ast"]) if double else "", "one step"), f.W(double[0][1]) if double else f.W())
         ctx.ok("C04.rollback", "TDS.run/re-advance", "no rollback statement", f.W(), nontrivial=False)
         return
+    clock_discipline(ctx, repo)
     ts_attrs = typestate_attrs(repo, helpers)
     loops = [n for n in f.g.nodes() if f.g.data(n)["kind"] == "loop" and isinstance(f.g.data(n)["ast"], ast.While)]
     for r in back:
@@ -186,3 +187,36 @@ def run_rule(ctx, repo):
             ok_b, pth_b = f.g.must_pass(r, loops[0], sorted(adv) + aborts, infeasible_edges=infeasible)
             ctx.check(ok_b, "C04.rollback", "TDS.run/re-advance@%s" % src(st)[:40], "after a rollback the clock is advanced again before the next attempt",
                       "after the rollback `%s` the loop can start the next attempt without advancing the clock: %s" % (src(st), f.g.fmt_path(pth_b or [])), f.W(r))
+
+
+def clock_discipline(ctx, repo):
+    """every write of the clock in the time-domain routine is one of: the step actually integrated (`+= self.h`), the exact landing time
+    recorded with that step, the recorded pre-advance time (rollback), or a reset to the initial time.  Advancing by any other quantity
+    (`+= self.deltat`, the proposed step before clipping) stores a step under a time it was not integrated to."""
+    ci = repo.cls("TDS", TDS)
+    helpers = tdscommon.advance_helpers(repo)
+    targets = set()
+    for h in helpers.values():
+        targets |= set(h.get("targets", []))
+    ts = typestate_attrs(repo, helpers)
+    n = 0
+    for mname, fn in ci.methods.items():
+        for st in walk_noscope(fn):
+            if not isinstance(st, (ast.Assign, ast.AugAssign)) or not _writes_clock(st):
+                continue
+            n += 1
+            val = src(st.value)
+            if isinstance(st, ast.AugAssign):
+                tgt = src(st.target)
+                ok = (isinstance(st.op, ast.Add) and val == "self.h") or (isinstance(st.op, ast.Sub) and val == tgt) \
+                    or (isinstance(st.op, ast.Sub) and val == "self.h")
+            else:
+                v = st.value
+                const = isinstance(v, ast.Constant) or (isinstance(v, ast.Call) and (dotted(v.func) or "").endswith("array") and v.args
+                                                        and isinstance(v.args[0], (ast.Constant, ast.UnaryOp)))
+                ok = const or val in targets or val in ts
+            ctx.check(ok, "C04.rollback", "TDS.%s/clock-write@%s" % (mname, src(st)[:34]),
+                      "the clock is written with the integrated step, its recorded landing time, the recorded pre-advance time or a reset",
+                      "`%s` in TDS.%s moves the clock by something other than the step that is integrated (self.h) or its recorded landing / "
+                      "pre-advance time: the state computed for t + h is stored under another time" % (src(st), mname), repo.W(ci, st))
+    return n
